@@ -14,15 +14,16 @@ PROPERTY = "C20"
 LEVEL = "exploration"
 SHARD_TIMEOUT = 900
 DEATH_IS_VIOLATION = True
-FLOORS = {"nontrivial": 10000, "observed": {"families": 25, "crash_corpus.texts": 10000}}
+FLOORS = {"nontrivial": 10000, "observed": {"families": 300, "crash_corpus.texts": 10000}}
 RULE = ("(a) crash freedom: damaged programs (G-damage at every token / sampled bytes), random "
         "Unicode text, token soup over the Nix vocabulary, valid G-nix programs, long files, up "
         "to 64 KiB and nesting 64: parse+rebuild must return or raise ValueError / NixSyntaxError, "
         "nothing else, and the worker must survive (write-ahead log attributes a death to its "
-        "input); (b) complexity: for every depth-parameterised family (curried lambdas, formals "
+        "input); (b) complexity: for every depth-parameterised family (hand-written: curried lambdas, formals "
         "lambdas, nested sets / lists / parentheses / let / with / assert / if / calls / selects, "
         "operator chains, long files, long lists, long strings, deep attrpaths, comment-heavy "
-        "files) logical work = activations of every rebuild / from_cst code object counted with "
+        "files; generated: 58 unary wrapper forms in one-line and broken-line spellings nested d times, and "
+        "every ordered pair of 20 core forms alternating) logical work = activations of every rebuild / from_cst code object counted with "
         "sys.monitoring at depths 4, 8, 16, 32: steps(2d) must stay below steps(d)^2/4 and the "
         "estimated degree log2(steps(2d)/steps(d)) <= 4.  non-trivial = a text that reached "
         "from_cst (not pass-through) or any family point; distinct by content hash")
@@ -76,6 +77,71 @@ def families():
     return fam
 
 
+# Generated nesting families: every unary "wrapper" form (prefix, suffix) nested d times around
+# a leaf, in a one-line and in broken-line spellings, and every ordered pair of a core subset
+# alternating (W1(W2(W1(...)))).  Forms that the grammar rejects at depth 4 are skipped.
+WRAPPERS = [
+    ("set", "{ a = ", "; }"), ("set-nl", "{\n a = ", ";\n}"), ("set-value-nl", "{ a =\n", "; }"),
+    ("rec", "rec { a = ", "; }"), ("list", "[ ", " ]"), ("list-nl", "[\n", "\n]"),
+    ("paren", "(", ")"), ("paren-nl", "(\n", "\n)"),
+    ("let-body", "let a = 1; in ", ""), ("let-body-nl", "let\n  a = 1;\nin\n", ""),
+    ("let-value", "let a = ", "; in a"), ("let-value-nl", "let\n  a =\n", ";\nin\na"),
+    ("with-body", "with a; ", ""), ("with-body-nl", "with a;\n", ""), ("with-env", "with ", "; x"),
+    ("with-env-nl", "with\n", ";\nx"),
+    ("assert-body", "assert a; ", ""), ("assert-body-nl", "assert a;\n", ""),
+    ("assert-cond", "assert ", "; x"), ("assert-cond-paren-nl", "assert\n(", "); x"),
+    ("if-cond", "if ", " then 1 else 2"), ("if-then", "if c then ", " else 2"),
+    ("if-else", "if c then 1 else ", ""), ("if-else-nl", "if c\nthen 1\nelse\n", ""),
+    ("lambda", "a: ", ""), ("lambda-nl", "a:\n", ""), ("formals", "{ a }: ", ""),
+    ("formals-nl", "{ a }:\n", ""), ("formals-default", "{ a ? ", " }: x"), ("at-pattern", "n@{ a }: ", ""),
+    ("call-arg", "f (", ")"), ("call-arg-tight", "f(", ")"), ("call-set", "f { a = ", "; }"),
+    ("call-set-tight", "f{ a = ", "; }"), ("call-set-nl", "f {\n a = ", ";\n}"), ("call-fn", "(", ") x"),
+    ("call-list", "f [ ", " ]"), ("select-base", "(", ").a"), ("select-or", "x.a or (", ")"),
+    ("inherit-from", "{ inherit (", ") a; }"), ("inherit-from-nl", "{\n inherit (", ") a;\n}"),
+    ("not", "!", ""), ("neg-paren", "-(", ")"), ("binop-left", "(", ") + 1"), ("binop-right", "1 + (", ")"),
+    ("update-right", "a // ", ""), ("concat-nl", "a\n++ ", ""), ("has-attr", "(", ") ? a"),
+    ("interp", '"${', '}"'), ("istr-interp", "''${", "}''"), ("dyn-attr", "{ ${", "} = 1; }"),
+    ("list-in-set", "{ a = [ ", " ]; }"), ("set-in-list", "[ { a = ", "; } ]"),
+    ("list-in-set-nl", "{\n a = [\n", "\n ];\n}"), ("comment-set", "{ # c\n a = ", "; }"),
+    ("comment-list", "[ # c\n", " ]"), ("block-comment-paren", "( /* c */ ", ")"),
+]
+PAIR_CORE = ["set", "set-nl", "list", "list-nl", "paren", "let-body", "let-value", "with-body-nl",
+             "with-env", "assert-cond-paren-nl", "if-cond", "lambda", "formals", "call-arg-tight",
+             "call-set", "select-base", "inherit-from", "binop-right", "interp", "comment-set"]
+
+
+def generated_families():
+    fam = {}
+    table = {n: (p, q) for n, p, q in WRAPPERS}
+    for n, p, q in WRAPPERS:
+        fam["nest:" + n] = (lambda p, q: (lambda d: p * d + "x" + q * d))(p, q)
+    for a in PAIR_CORE:
+        for b in PAIR_CORE:
+            if a == b:
+                continue
+            pa, qa = table[a]
+            pb, qb = table[b]
+            # d counts wrapper applications in total (alternating a, b, a, ...)
+            def make(d, pa=pa, qa=qa, pb=pb, qb=qb):
+                pre, suf = "", ""
+                for i in range(d):
+                    if i % 2 == 0:
+                        pre += pa
+                        suf = qa + suf
+                    else:
+                        pre += pb
+                        suf = qb + suf
+                return pre + "x" + suf
+            fam[f"alt:{a}|{b}"] = make
+    return fam
+
+
+def all_families():
+    fam = families()
+    fam.update(generated_families())
+    return fam
+
+
 def step_codes():
     import nix_manipulator.mapping  # noqa: F401 - make sure all expression modules are loaded
     return sysmon.code_objects_named({"rebuild", "from_cst", "rebuild_scoped", "_render_output",
@@ -123,7 +189,7 @@ def unicode_text(rng, n):
 
 
 def plan(tier, seed):
-    specs = [{"kind": "families", "part": p, "parts": 6, "max_depth": 32} for p in range(6)]
+    specs = [{"kind": "families", "part": p, "parts": 32, "max_depth": 32} for p in range(32)]
     n = 10 if tier == "quick" else 58
     for i in range(n):
         specs.append({"kind": "corpus", "seed": seed * 1811 + i * 67867967 + 31,
@@ -141,7 +207,7 @@ def run_shard(spec):
         obs["families"] = {}
         codes = step_codes()
         obs["instrumented_code_objects"] = len(codes)
-        fams = families()
+        fams = all_families()
         for n, (name, make) in enumerate(sorted(fams.items())):
             if n % spec["parts"] != spec["part"]:
                 continue
@@ -288,7 +354,7 @@ def replay(case):
     from nix_manipulator import parse
     if "text_d" in case:
         codes = step_codes()
-        fam = families()[case["family"]]
+        fam = all_families()[case["family"]]
         a = measure(fam(8), codes)[0]
         b = measure(fam(16), codes)[0]
         if b >= a * a / 4 and a >= 16:
